@@ -322,9 +322,15 @@ def flattened_multi_fault(ctx: Ctx, n: int, oracle=None):
     from adaptix.load_error import LoadError, NoRequiredFieldsLoadError
     from adaptix.struct_trail import get_trail
     rng = ctx.rng
-    prefixes = [(), (), ("n1",), ("n1", "n2"), ("m1",), ("n1", "k3"), ("m1", "m2", "m3")]
+    prefix_sets = [
+        [(), (), ("n1",), ("n1", "n2"), ("m1",), ("n1", "k3"), ("m1", "m2", "m3")],
+        # several sibling sub-mappings below one mapping (processed in key order after the plain fields of their parent)
+        [(), ("n1", "a1"), ("n1", "k3"), ("n1", "z9"), ("n1",), ("n1", "k3", "deep")],
+        [("page", "origin"), ("page", "size"), ("page",), (), ("page", "size", "unit")],
+    ]
     for i in range(n):
-        k = rng.randint(2, 5)
+        prefixes = rng.choice(prefix_sets)
+        k = rng.randint(2, 6)
         names = [f"f{j}" for j in range(k)]
         # field types: a scalar, containers and a nested model - an error raised INSIDE one of the latter already carries a
         # trail when the outer model loader re-bases it (extend_trail instead of append_trail for nested crown paths)
@@ -350,18 +356,35 @@ def flattened_multi_fault(ctx: Ctx, n: int, oracle=None):
                     datum = replace_at(datum, where[nm], bads[nm])
                 else:
                     datum = delete_at(datum, paths[nm])
+            # a whole intermediate mapping of the layout replaced by a non-mapping: one TypeLoadError at its path; what lies below
+            # it cannot be looked at, everything else is still reported
+            branch = None
+            prefixes_used = sorted({paths[nm][:k] for nm in names for k in range(1, len(paths[nm]))})
+            if prefixes_used and rng.random() < 0.45:
+                branch = rng.choice(prefixes_used)
+                bads["<branch>"] = Bad()
+                try:
+                    datum = replace_at(datum, branch, bads["<branch>"])
+                except (KeyError, TypeError, IndexError):
+                    branch = None
+                    del bads["<branch>"]
+            below = (lambda p: branch is not None and p[:len(branch)] == branch)
             # expected reports: (outer trail, what)
-            expected = {(where[nm], "bad:" + nm) for nm, kind in kinds.items() if kind in ("wrong", "inner")}
+            expected = {(where[nm], "bad:" + nm) for nm, kind in kinds.items() if kind in ("wrong", "inner") and not below(paths[nm])}
+            if branch is not None:
+                expected.add((branch, "bad:<branch>"))
             missing_at = {}
             for nm, kind in kinds.items():
-                if kind == "missing":
+                if kind == "missing" and not below(paths[nm]):
                     missing_at.setdefault(paths[nm][:-1], set()).add(paths[nm][-1])
             for crown, keys in missing_at.items():
                 expected.add((crown, "missing:" + ",".join(sorted(keys))))
             levels = len({paths[nm][:-1] for nm in faulty})
             case = {"suite": "flattened", "map": {nm: list(p) for nm, p in paths.items()}, "types": ftypes, "faults": kinds}
+            if branch is not None:
+                case["branch"] = list(branch)
             ctx.note_case(case, nontrivial=len(faulty) > 1, kind=f"flattened:{min(len(faulty), 3)}-faults:{min(levels, 3)}-levels"
-                          + (":inner" if "inner" in kinds.values() else ""))
+                          + (":inner" if "inner" in kinds.values() else "") + (f":branch-depth-{len(branch)}" if branch else ""))
             if oracle is not None:
                 oracle(ctx, retorts, cls, datum, case)
                 continue
